@@ -643,7 +643,8 @@ fn c05_case(ctx: &Ctx, case: u64, acc: &mut Acc) -> Verdict {
         rda: 86_400_000_000,
         mps: 1400,
         notify_down: true,
-        pa: None,
+        // the stock configurations (Config::new_lan / new_wan) run the ordinary periodic announce alongside
+        pa: if Rng64::derive(ctx.seed, 0xC05B, case).chance(1, 2) { Some((p * (2 + case % 5), 1 + (case % 2) as usize)) } else { None },
         pad: Some((a_periods * p, n)),
         pg: if r.chance(1, 2) { Some((p / 2, 2)) } else { None },
     };
@@ -766,6 +767,136 @@ fn c05_case(ctx: &Ctx, case: u64, acc: &mut Acc) -> Verdict {
     Ok(())
 }
 
+/// Two partitions in a row, with remove_down_after chosen so that the forget-timers of the first round of Down
+/// declarations (they name the identities of *before* the first renewal) fire while the second partition is on
+/// and every cross pair is mutually Down again: they must not disturb the Down records of the renewed
+/// identities, or nobody is left to announce to after the second heal.
+fn c05_repartition(ctx: &Ctx, case: u64, acc: &mut Acc) -> Verdict {
+    let mut r = Rng64::derive(ctx.seed, 0xC05D, case);
+    let nmax = if ctx.tier == Tier::Quick { 5 } else { 8 };
+    let n = r.range(3, nmax) as usize;
+    let p = 3 * R;
+    let a_periods = *r.pick(&[1u64, 2]);
+    let hold_max = 8 * n as u64 + 3 * (2 * n as u64 + 1) + 20;
+    let bound_periods = 4 * a_periods + 4 * n as u64 + 4;
+    let rda = (2 * hold_max + bound_periods + 30) * p;
+    let cfg = Cfg {
+        p,
+        r: R,
+        k: 3,
+        tx: r.range(3, 10) as u8,
+        s2d: (2 * n as u64 + 1) * p,
+        rda,
+        mps: 1400,
+        notify_down: true,
+        pa: if r.chance(1, 3) { Some((3 * p, 1)) } else { None },
+        pad: Some((a_periods * p, n)),
+        pg: if r.chance(1, 2) { Some((p / 2, 2)) } else { None },
+    };
+    let join = *r.pick(&[Join::SeqToFirst, Join::BurstToFirst]);
+    let Some(mut f) = formed_with(r.next(), n, &cfg, Renew::Bump, (1, R / 4), join, acc)? else {
+        acc.inconclusive += 1;
+        return Ok(());
+    };
+    let mut nop = |_: &Sim, _: usize, _: &CallRec| -> Result<(), V> { Ok(()) };
+    let mut what = format!("n={n} announce-to-down every {a_periods} periods remove_down_after={} periods", rda / p);
+    let mut t_first_partition = 0;
+    let mut t_first_mutual = 0;
+    for round in 0..2 {
+        // split with at least two members on one side
+        let side1 = 1 + r.usize(n - 1);
+        let mut idx: Vec<usize> = (0..n).collect();
+        r.shuffle(&mut idx);
+        let mut part = vec![0u8; n];
+        for &i in idx.iter().take(side1) {
+            part[i] = 1;
+        }
+        what.push_str(&format!(" | partition {} sides {:?}", round + 1, part));
+        let t0 = f.sim.now;
+        f.sim.part = Some(part.clone());
+        let mut mutual = false;
+        for k in 1..=hold_max {
+            f.sim.run_until(t0 + k * p, acc, &mut nop)?;
+            mutual = (0..n).all(|i| {
+                (0..n).all(|j| {
+                    i == j || part[i] == part[j] || {
+                        let ja = f.sim.nodes[j].node.id().addr;
+                        f.sim.nodes[i].node.last.state.iter().any(|m| m.id().addr == ja && m.state() == State::Down)
+                    }
+                })
+            });
+            if mutual {
+                break;
+            }
+        }
+        if !mutual {
+            acc.inconclusive += 1;
+            acc.tally("premise_mutual_down_not_reached", 1);
+            return Ok(());
+        }
+        if round == 0 {
+            t_first_partition = t0;
+            t_first_mutual = f.sim.now;
+        } else {
+            // keep the second partition on until every forget-timer of the first round has fired
+            ensure!(f.sim.now <= t_first_partition + rda, "C05/harness", "second partition reached mutual Down too late for the schedule");
+            let until = t_first_mutual + rda + 2 * p;
+            f.sim.run_until(until, acc, &mut nop)?;
+        }
+        let t_heal = f.sim.now + r.below(3 * p);
+        f.sim.run_until(t_heal, acc, &mut nop)?;
+        f.sim.part = None;
+        let mut done: Option<u64> = None;
+        for k in 0..=(bound_periods + 6) {
+            f.sim.run_until(t_heal + k * p, acc, &mut nop)?;
+            if f.sim.full_view() {
+                done = Some(k);
+                break;
+            }
+        }
+        match done {
+            Some(k) => {
+                ensure!(k <= bound_periods, "C05/converged-too-late", "{what}: converged {k} periods after heal {} (bound {bound_periods})", round + 1);
+                acc.max(&format!("periods_to_converge_after_heal_{}", round + 1), k);
+            }
+            None => {
+                let missing: Vec<(usize, usize)> = (0..n).flat_map(|i| (0..n).map(move |j| (i, j))).filter(|&(i, j)| i != j && !f.sim.lists(i, j)).take(6).collect();
+                return Err(V::new("C05/not-converged", format!("{what}: {} periods after heal {} these (who, misses whom) pairs remain: {missing:?}", bound_periods + 6, round + 1)));
+            }
+        }
+        let t_settle = f.sim.now + 3 * p;
+        f.sim.run_until(t_settle, acc, &mut nop)?;
+        ensure!(f.sim.full_view(), "C05/view-lost-again", "{what}: the full view was reached after heal {} but lost again within 3 periods", round + 1);
+    }
+    let mut renewed = 0;
+    for (i, x) in f.sim.nodes.iter().enumerate() {
+        ensure!(!x.notes.iter().any(|(_, nn)| *nn == N::Defunct), "C05/defunct", "{what}: instance {i} went Defunct");
+        let mut cur = Id::new(i as u16, 0);
+        let mut last_rejoin: Option<usize> = None;
+        for (k, (_, nn)) in x.notes.iter().enumerate() {
+            if let N::Rejoin(id) = nn {
+                ensure!(id.addr == cur.addr && id.gen > cur.gen, "C05/rejoin-identity", "{what}: instance {i} reported Rejoin({id:?}) while being {cur:?}");
+                cur = *id;
+                last_rejoin = Some(k);
+                renewed += 1;
+            }
+        }
+        ensure!(x.node.id() == cur, "C05/rejoin-identity", "{what}: instance {i} is {:?} but its Rejoin notifications end at {cur:?}", x.node.id());
+        if let Some(k) = last_rejoin {
+            ensure!(x.notes[k..].iter().any(|(_, nn)| *nn == N::Active), "C05/no-active-after-rejoin", "{what}: instance {i} never reported Active after its last Rejoin");
+        }
+    }
+    let forget_fired: usize = f.sim.forget_timers_fired as usize;
+    ensure!(forget_fired > 0, "C05/harness", "no forget-timer fired during the second partition");
+    f.sim.tally_into(acc);
+    acc.tally("repartition_cases", 1);
+    acc.tally("forget_timers_fired_during_second_partition", forget_fired as u64);
+    acc.tally("renewals_in_repartition_cases", renewed);
+    acc.nontrivial(fp(&("repartition", n, what.clone())));
+    acc.sample(|| json!({"workload": "repartition", "case": what, "renewals": renewed, "forget_timers_fired": forget_fired}));
+    Ok(())
+}
+
 pub fn c02() -> Check {
     Check {
         id: "C02",
@@ -815,7 +946,10 @@ pub fn c05() -> Check {
         rule: "formed clusters of 3..=6 (quick) / 3..=10 (thorough) renewable instances with notify_down_members and announce-to-down (num_members >= n) are partitioned (side sizes 1..n-1 cycled by case index, members of the sides seeded; every 5th case isolates a single member: both ways, inbound only or outbound only), held until every cross pair is mutually Down (premise, else inconclusive), healed at a seeded instant. Oracle: full mutual view under current identities within 4A+(4n+4) periods; told-down instances report Rejoin with a winning identity, never Defunct, then Active. Distinct by (n, shape, A, heal offset).",
         assumptions: &["announce-to-down num_members >= n so that every Down record is announced to each period (with fewer, which record is picked is random and no finite bound is deterministic)"],
         required: &["partitions_healed", "instances_renewed", "split_cases", "asymmetric_cases"],
-        workloads: vec![Workload { name: "partition", f: c05_case, quick: 3_200, thorough: 200_000, flav: Flav::Checked }],
+        workloads: vec![
+            Workload { name: "partition", f: c05_case, quick: 3_200, thorough: 200_000, flav: Flav::Checked },
+            Workload { name: "repartition", f: c05_repartition, quick: 400, thorough: 20_000, flav: Flav::Checked },
+        ],
         exhaustive: false,
     }
 }
